@@ -371,6 +371,14 @@ func wConfig(prop, tier string) *Config {
 		} else {
 			cfg.Phases = []Phase{{Name: "full-depth2", Roots: []string{"R0", "R1", "R7"}, Ops: ops, Depth: 2, Dev: 2}, {Name: "core-depth3", Roots: []string{"R1"}, Ops: []string{"llp_open_t3_x9", "perp_open_long_t3_max", "price_atom_4", "price_atom_2", "price_atom_8", "gap_30d", "llp_bot_close_all", "llp_bot_stoploss_all", "perp_bot_close_all", "perp_other_trader_closes_all_twice"}, Depth: 3, Dev: 3}}
 		}
+		// a parameter change of either position module EXECUTED AND DISCARDED (failed multi-message proposal,
+		// simulation), then opens at every leverage and the third-party close requests: gates must read the
+		// committed parameters
+		{
+			first := rolledBack(autoCfgAllNamesFor("/elys.leveragelp.MsgUpdateParams", "/elys.perpetual.MsgUpdateParams"))
+			second := []string{"llp_open_t3_x9", "llp_open_t2_x5", "perp_open_long_t3_max", "perp_open_long_t3_x5", "llp_bot_close_all", "perp_bot_close_all", "empty"}
+			cfg.Phases = append(cfg.Phases, Phase{Name: "rolled-back-params-depth2", Roots: []string{"R1", "R21"}, Ops: append(append([]string{}, first...), second...), First: first, Second: second, Depth: 2, Dev: 4})
+		}
 		// THIN POOL (root R16): swap estimates of the size of a position fail, so health estimators and forced
 		// closes run into errors — every kind of third-party request and the chain's own sweep from there
 		cfg.Phases = append(cfg.Phases, Phase{Name: "thin-pool-depth2", Roots: []string{"R16"}, Ops: []string{"perp_bot_close_all", "perp_bot_liquidate_t3_only", "perp_bot_liquidate_t1_only", "perp_other_trader_closes_all_twice", "llp_bot_close_all", "llp_bot_stoploss_all", "empty", "gap_1d", "price_atom_4", "price_atom_8", "perp_close_full_t1", "swap_in_p1_usdc_atom_L"}, Depth: 2, Dev: 2})
